@@ -3,6 +3,7 @@
 //!   opwv replay <generator> <in.ndjson> <out.ndjson>   spec -> impl (B1)
 //!   opwv record <what> <out.ndjson>                    impl -> spec (B2 / B3)
 mod chain;
+mod jac;
 mod lattice;
 mod limits;
 mod oracle;
@@ -29,6 +30,8 @@ fn main() {
         ("replay", "singular") => singular::replay(&args[3], &args[4], &args[5]),
         ("record", "cont") => singular::record_cont(&args[3]),
         ("replay", "pgram") => pgram::replay(&args[3], &args[4]),
+        ("replay", "jac") => jac::replay(&args[3], &args[4]),
+        ("record", "jac") => jac::record(&args[3]),
         ("record", "ik") => solver::record(&args[3], &args[4]),
         ("record", "follow") => solver::record_follow(&args[3]),
         _ => {
